@@ -168,6 +168,8 @@ type c18Call struct {
 	res    *hrpc.RPCResult
 	resAt  time.Time
 	cancel context.CancelFunc
+	// bad: the request could not even be serialised (nothing was written, nothing is outstanding)
+	bad bool
 }
 
 func c18Run(c c18Case) Outcome {
@@ -351,6 +353,35 @@ func c18RunInBubble(c c18Case) (out Outcome) {
 		case "cancelsend":
 			cancelNextInWrite = a.InWrite
 			send(false, true, false)
+		case "sendbad":
+			// a call that cannot be serialised (nil row: the protobuf field is required): the client
+			// reports the error to its caller, writes nothing, and the connection is as good as before
+			nextMarker++
+			bctx, bcancel := context.WithCancel(context.Background())
+			g, _ := hrpc.NewGet(bctx, []byte("t"), nil, hrpc.SkipBatch())
+			g.SetRegion(env.reg)
+			cc := &c18Call{call: g, cancel: bcancel, bad: true}
+			calls = append(calls, cc)
+			go func() {
+				r := <-g.ResultChan()
+				mu.Lock()
+				cc.res, cc.resAt = &r, time.Now()
+				mu.Unlock()
+			}()
+			env.rc.QueueRPC(g)
+			synctest.Wait()
+			mu.Lock()
+			got := cc.res
+			mu.Unlock()
+			if got == nil || got.Error == nil {
+				return viol("harness", "a Get without a row did not fail to serialise (result %v)", got)
+			}
+			if _, isSE := got.Error.(region.ServerError); isSE {
+				// the client chose to treat it as a connection failure: then the connection is dead,
+				// which the checks below will see as a close without a silent server
+				out.Labels = append(out.Labels, "marshal_failure_kills_connection")
+			}
+			out.Labels = append(out.Labels, "marshal_failure")
 		case "answer":
 			srv.answer(a.I)
 		case "wait":
@@ -410,7 +441,7 @@ func c18RunInBubble(c c18Case) (out Outcome) {
 			// every unanswered call must have failed with a ServerError at the deadline instant
 			mu.Lock()
 			for _, cc := range calls {
-				if cc.res == nil || cc.res.Error == nil {
+				if cc.res == nil || cc.res.Error == nil || cc.bad {
 					continue
 				}
 				if _, ok := cc.res.Error.(region.ServerError); !ok {
@@ -521,7 +552,7 @@ func c18Gen(t *rapid.T) c18Case {
 		for r := 0; r < nr; r++ {
 			k := rapid.IntRange(1, 4).Draw(t, "k")
 			for i := 0; i < k; i++ {
-				kind := rapid.SampledFrom([]string{"send", "send", "sendbatched", "cancelsend"}).Draw(t, "skind")
+				kind := rapid.SampledFrom([]string{"send", "send", "sendbatched", "cancelsend", "sendbad"}).Draw(t, "skind")
 				act := c18Act{Kind: kind, Gate: kind == "send" && rapid.IntRange(0, 2).Draw(t, "gate") == 0}
 				act.InWrite = kind == "cancelsend" && rapid.Bool().Draw(t, "inwrite")
 				act.Gate2 = kind == "send" && !act.Gate && rapid.IntRange(0, 2).Draw(t, "gate2") == 0
@@ -542,7 +573,7 @@ func c18Gen(t *rapid.T) c18Case {
 	}
 	n := rapid.IntRange(1, 25).Draw(t, "nacts")
 	for i := 0; i < n; i++ {
-		k := rapid.SampledFrom([]string{"send", "send", "sendbatched", "cancelsend", "answer", "answer", "answer", "answersend", "wait", "wait"}).Draw(t, "kind")
+		k := rapid.SampledFrom([]string{"send", "send", "sendbatched", "cancelsend", "sendbad", "answer", "answer", "answer", "answersend", "wait", "wait"}).Draw(t, "kind")
 		a := c18Act{Kind: k}
 		switch k {
 		case "send":
@@ -572,7 +603,7 @@ func TestC18_ReadDeadline(t *testing.T) {
 	rec := evid.New("C18", "TestC18_ReadDeadline",
 		"rapid, virtual time: action scripts of 1..25 steps on one region client over an in-memory connection whose "+
 			"peer is the harness: send (unbatched; optionally with the writer held until the reader has consumed the "+
-			"response to that very request), send batched, send-and-cancel (after queueing, or while the request is being written), answer the i-th outstanding request (any "+
+			"response to that very request), send batched, send-and-cancel (after queueing, or while the request is being written), send a call that cannot be serialised, answer the i-th outstanding request (any "+
 			"order, also for cancelled calls and multi-requests), let time pass (0.001x .. 50x the read timeout); read "+
 			"timeout in {10ms..60s}. Invariant at every quiescence point: read deadline armed <=> the server holds "+
 			"unanswered requests, and armed deadline == last send + read timeout; a silent server fails every "+
